@@ -321,6 +321,39 @@ func init() {
 			}
 			def(it.name, xs)
 		}
+		// lock structure of CommitFamilyEditLog: which of the relevant calls run before vs.mutex.Lock()
+		// and which inside the locked section (the Unlock is deferred, so everything after Lock)
+		{
+			fd, err := need(vs, "storeVersionSet", "CommitFamilyEditLog")
+			if err != nil {
+				return "", err
+			}
+			ev := c02Events(fd, c02Keep("mutex.Lock", "defer:mutex.Unlock", "mutex.Unlock", "vs.persistEditLogs", "familyVersion.GetSnapshot",
+				"snapshot.GetCurrent().Clone", "editLog.apply", "familyVersion.appendVersion"))
+			var before, inside []string
+			locked, deferred := false, false
+			for _, e := range ev {
+				switch e {
+				case "mutex.Lock":
+					locked = true
+				case "defer:mutex.Unlock":
+					deferred = true
+				case "mutex.Unlock":
+					locked = false
+				default:
+					if locked {
+						inside = append(inside, e)
+					} else {
+						before = append(before, e)
+					}
+				}
+			}
+			def("commitOutsideLock", before)
+			def("commitInsideLock", inside)
+			ok := deferred && len(before) == 0
+			fmt.Fprintf(&sb, "\n/-- does CommitFamilyEditLog take its snapshot and clone the version inside vs.mutex? -/\n")
+			fmt.Fprintf(&sb, "def commitCloneUnderLock : Bool := %v\n", ok)
+		}
 		fmt.Fprintf(&sb, "\n/-- does `removeVersion` re-check `ref == 0` under the family lock before deleting? -/\n")
 		fmt.Fprintf(&sb, "def removeVersionRechecksRef : Bool := %v\n", c02RemoveRechecks(removeSteps))
 		return sb.String(), nil
